@@ -88,7 +88,7 @@ type spliceValue struct {
 
 	// references resolved while computing value. The cached value is valid in
 	// every context none of them is active in (see cfgDynamic.getValue).
-	deps []string
+	deps *depSet
 }
 
 // evalState tracks what the evaluation of dynamic values depends on.
@@ -96,45 +96,116 @@ type evalState struct {
 	// number of cyclic references detected so far
 	cycles int
 
-	// names of the references resolved by the dynamic values currently being
-	// evaluated, one list per nesting level
-	resolved [][]string
+	// what the dynamic values currently being evaluated depend on, one set per
+	// nesting level
+	resolved []*depSet
+}
+
+// depSet is the set of references the evaluation of a value depends on: the
+// names the value resolved itself and the sets of the values it used. The
+// sets of used values are shared, not copied: the dependencies of a value
+// take room (and time) in proportion to what the value itself refers to, not
+// to everything reachable through it - a chain of n references would hold
+// n^2/2 names otherwise, repeated uses (diamonds) would double per level.
+type depSet struct {
+	names []string
+	subs  []*depSet
+}
+
+func (d *depSet) addName(name string) {
+	for _, known := range d.names {
+		if known == name {
+			return
+		}
+	}
+	d.names = append(d.names, name)
+}
+
+func (d *depSet) addSub(sub *depSet) {
+	if sub == nil || (len(sub.names) == 0 && len(sub.subs) == 0) {
+		return
+	}
+	if len(sub.subs) == 0 && len(sub.names) <= 4 {
+		// a small set without parts of its own is taken over by value: a value
+		// that is not cached (an object) and evaluated again and again would
+		// add one more equal set per evaluation otherwise
+		for _, name := range sub.names {
+			d.addName(name)
+		}
+		return
+	}
+	for _, known := range d.subs {
+		if known == sub {
+			return
+		}
+	}
+	d.subs = append(d.subs, sub)
+}
+
+// anyActive checks if one of the references in d is being resolved right now.
+func (d *depSet) anyActive(active *fieldSet) bool {
+	if d == nil {
+		return false
+	}
+	if len(d.subs) == 0 {
+		for _, name := range d.names {
+			if active.Has(name) {
+				return true
+			}
+		}
+		return false
+	}
+
+	seen := map[*depSet]struct{}{}
+	var walk func(d *depSet) bool
+	walk = func(d *depSet) bool {
+		if _, done := seen[d]; done {
+			return false
+		}
+		seen[d] = struct{}{}
+		for _, name := range d.names {
+			if active.Has(name) {
+				return true
+			}
+		}
+		for _, sub := range d.subs {
+			if walk(sub) {
+				return true
+			}
+		}
+		return false
+	}
+	return walk(d)
 }
 
 func (s *evalState) push() {
-	s.resolved = append(s.resolved, nil)
+	s.resolved = append(s.resolved, &depSet{})
 }
 
-func (s *evalState) pop() []string {
+func (s *evalState) pop() *depSet {
 	last := len(s.resolved) - 1
 	deps := s.resolved[last]
-	verifDeps("evalState.pop", len(deps))
+	verifDeps("evalState.pop", len(deps.names)+len(deps.subs))
 	s.resolved = s.resolved[:last]
-	s.add(deps...) // the enclosing value depends on them as well
+	s.addSet(deps) // the enclosing value depends on them as well
 	return deps
 }
 
+// add records the names of references as dependencies of the value being
+// evaluated.
 func (s *evalState) add(names ...string) {
-	last := len(s.resolved) - 1
-	if last < 0 {
-		return
-	}
-	// every name once: a value used repeatedly (diamonds) must not multiply
-	// the dependencies of the values built from it
-	deps := s.resolved[last]
-	for _, name := range names {
-		known := false
-		for _, dep := range deps {
-			if dep == name {
-				known = true
-				break
-			}
-		}
-		if !known {
-			deps = append(deps, name)
+	if last := len(s.resolved) - 1; last >= 0 {
+		for _, name := range names {
+			s.resolved[last].addName(name)
 		}
 	}
-	s.resolved[last] = deps
+}
+
+// addSet records the dependencies of a value used by the value being evaluated.
+func (s *evalState) addSet(deps *depSet) {
+	if last := len(s.resolved) - 1; last >= 0 {
+		s.resolved[last].addSub(deps)
+	}
 }
 
 // StructTag option sets the struct tag name to use for looking up
